@@ -37,6 +37,9 @@ type person struct {
 	DeathNoDate bool `json:"death_nodate,omitempty"`
 	// BadDates are unparsable DATE values placed in RESI events of the person
 	BadDates []string `json:"bad_dates,omitempty"`
+	// BadBirth: the (only) BIRT event carries this unparsable DATE; the person then
+	// has no usable birth or baptism date at all
+	BadBirth string `json:"bad_birth,omitempty"`
 }
 
 type family struct {
@@ -92,6 +95,9 @@ func (d *doc) graph() *gen.GraphBP {
 			bp.Events = append(bp.Events, e)
 		}
 		ev("BIRT", p.Birth)
+		if p.BadBirth != "" && len(p.Birth) == 0 {
+			bp.Events = append(bp.Events, gen.EventBP{Tag: "BIRT", Date: gen.Str(p.BadBirth), HasDate: true})
+		}
 		ev("BAPM", p.Bapm)
 		ev("BAPL", p.Bapl)
 		if p.DeathNoDate && len(p.Death) == 0 {
@@ -191,6 +197,9 @@ func expected(d *doc) (exp map[string]int, opt map[string]int) {
 		}
 		for _, b := range p.BadDates {
 			add("UnparsableDate|" + p.ID + "|" + b)
+		}
+		if p.BadBirth != "" && len(p.Birth) == 0 {
+			add("UnparsableDate|" + p.ID + "|" + p.BadBirth)
 		}
 		// individual too old: age at (estimated) death above 100 years
 		if db, ok := estDeath(p); ok {
@@ -563,6 +572,12 @@ func genDoc(t *rapid.T) *doc {
 		if b, ok := birth[p.ID]; ok {
 			p.Birth = []int{b}
 		}
+		// an unparsable birth date instead of a usable one (the person keeps the place
+		// in the family, e.g. as the first of three siblings)
+		if rapid.IntRange(0, 5).Draw(t, "badBirth"+p.ID) == 0 {
+			p.Birth = nil
+			p.BadBirth = rapid.SampledFrom([]string{"foo bar", "31 Feb 1800", "sometime in spring"}).Draw(t, "badBirthValue"+p.ID)
+		}
 	}
 	// remaining facts per person
 	for _, p := range d.People {
@@ -579,13 +594,13 @@ func genDoc(t *rapid.T) *doc {
 		if !hasBase {
 			base = anchor
 		}
-		if rapid.IntRange(0, 3).Draw(t, "hasBapm"+p.ID) == 0 {
+		if rapid.IntRange(0, 3).Draw(t, "hasBapm"+p.ID) == 0 && p.BadBirth == "" {
 			p.Bapm = []int{base + rapid.SampledFrom([]int{-30, -1, 0, 1, 30, 400}).Draw(t, "bapm"+p.ID)}
 			if rapid.IntRange(0, 4).Draw(t, "twoBapm"+p.ID) == 0 {
 				p.Bapm = append(p.Bapm, base+rapid.SampledFrom([]int{-2, 0, 20}).Draw(t, "bapm2"+p.ID))
 			}
 		}
-		if rapid.IntRange(0, 9).Draw(t, "hasBapl"+p.ID) == 0 {
+		if rapid.IntRange(0, 9).Draw(t, "hasBapl"+p.ID) == 0 && p.BadBirth == "" {
 			p.Bapl = []int{base + rapid.SampledFrom([]int{-1, 0, 3000}).Draw(t, "bapl"+p.ID)}
 		}
 		switch rapid.IntRange(0, 5).Draw(t, "deathKind"+p.ID) {
@@ -744,7 +759,7 @@ func init() {
 	harness.Assume("margins only where the statement itself is approximate: ages within +-0.02 years (about a week) of 16 and 100 and sibling gaps of 271..279 days may or may not warn; everything else is decided on whole days",
 		"a marriage dated before the spouse's birth may or may not produce a married-out-of-range warning (the statement does not say)",
 		"birth for age conditions = earliest BIRT date, else earliest baptism (documented on EstimatedBirthDate); death = earliest DEAT date, else earliest burial",
-		"unparsable dates are only placed in RESI / ENGA events so that they do not interact with other conditions; no phrases or empty DATE values",
+		"unparsable dates are placed in RESI / ENGA events and, for about one person in six, as the only BIRT date (that person then has no baptism either, so no age is known for them); no phrases or empty DATE values",
 		"all dates lie before 1975, so nothing depends on today's date")
 	harness.RegisterReplay("warnings-sound-and-complete", func(raw json.RawMessage) *harness.Failure {
 		var d doc
